@@ -9,7 +9,7 @@
 (* by the self-consistency invariant; the driver ignores them and the      *)
 (* trace monitor never sees them.                                          *)
 (***************************************************************************)
-EXTENDS ModbusPDU, CodecAPI, TLC, Json, FiniteSets
+EXTENDS ModbusPDU, CodecAPI, TLC, Json, FiniteSets, SequencesExt
 
 CONSTANTS Set, Tier   \* which case space, "quick" / "thorough" (set in the generated .cfg)
 Thorough == Tier = "thorough"
@@ -179,6 +179,12 @@ C11Cases(z) ==
              pl \in CoilPayloads(0), st \in (IF Thorough THEN {0, 1, 100, 65000, 63535} ELSE {0, 100, 65000}),
              m \in {<<1, "IsCoilSet">>, <<2, "IsCoilSet">>, <<2, "IsInputSet">>}}
 
+C11Extra(z) ==
+    {[op |-> "coilextract", fc |-> fc, payload |-> pl, start |-> st, data |-> SetToSeq(CoilQueries(Len(pl), st))] :
+        fc \in {1, 2}, pl \in {OneHot(2, 9), OneHot(3, 0), Pat("ramp", 3), Pat("hash", 4), <<5>>}, st \in {0, 100, 65520}}
+    \cup {[op |-> "coilroundtrip", framing |-> fr, unit |-> 1, addr |-> st, coils |-> CoilPat(p, n)] :
+        fr \in Framings, st \in {0, 1000}, p \in CoilPats,
+        n \in (IF Thorough THEN 1..64 \cup {100, 1000, 1967, 1968} ELSE {1, 2, 7, 8, 9, 15, 16, 17, 24, 25, 100, 1968})}
 \* (pack/unpack being inverse in the specification itself is checked by C01Self on every FC15 case)
 C11Self(k) == TRUE
 
@@ -293,7 +299,7 @@ CaseSet(z) ==
       [] Set = "c03" -> C03Cases(0)
       [] Set = "c09" -> C09Cases(0)
       [] Set = "c10" -> C10Cases(0)
-      [] Set = "c11" -> C11Cases(0)
+      [] Set = "c11" -> C11Cases(0) \cup C11Extra(0)
       [] Set = "c18" -> C18Cases(0)
 
 SelfOK(k) ==
